@@ -87,7 +87,9 @@ jax_funcs = {
     # Bind PyRates' `interp` directly to jax.numpy.interp — the previous
     # custom helper used a Python `if`, which the JIT tracer cannot handle.
     'interp':      {'call': 'interp',   'func': np.interp, 'imports': ['jax.numpy.interp']},
-    'interp_rows': {'call': 'interp_rows', 'func': np.interp, 'def': interp_rows,
+    'interp_rows': {'call': 'interp_rows',
+                    'func': lambda t, time, inp: np.array([np.interp(t, time, inp[:, k]) for k in range(inp.shape[1])]),
+                    'def': interp_rows,
                     'imports': ['jax.numpy.interp', 'jax.numpy.array']},
     'wsum':        {'call': 'wsum',     'def': wsum, 'imports': ['jax.numpy.einsum']},
     'real':        {'call': 'real',     'func': np.real,         'imports': ['jax.numpy.real']},
